@@ -61,7 +61,7 @@ def run(rep, thorough, pid="C08"):
     offer = {"volume": 3.0, "phosphate": 0.03, "temperature": 12.0}
     for cname in classes:
         for aname in ("Arc", "PullArc", "PushArc"):
-            for direction in ("push", "pull", "pushcheck", "pullcheck"):
+            for direction in ("push", "pushforce", "pull", "pushcheck", "pullcheck"):
                 try:
                     hub = mk(cname)
                     other = Node(name="other")
@@ -74,6 +74,10 @@ def run(rep, thorough, pid="C08"):
                         rec0 = (arc.flow_in, dict(arc.vqip_in))
                         if direction == "push":
                             r = arc.send_push_request(dict(offer))
+                        elif direction == "pushforce":
+                            if aname != "PullArc":
+                                continue          # force is only probed where it must not matter: a pull-only arc
+                            r = arc.send_push_request(dict(offer), force=True)
                         elif direction == "pull":
                             r = arc.send_pull_request({"volume": 2.0})
                         elif direction == "pushcheck":
@@ -88,9 +92,9 @@ def run(rep, thorough, pid="C08"):
                         stats["denials_checked"] += 1
                         if after != before or (arc.flow_in, dict(arc.vqip_in)) != rec0:
                             bad(f"{aname} carried a {direction}: {cname} or the arc record changed", {"class": cname, "arc": aname, "direction": direction})
-                        if direction == "push" and any(abs(r[k] - offer[k]) > 1e-12 for k in offer):
+                        if direction in ("push", "pushforce") and any(abs(r[k] - offer[k]) > 1e-12 for k in offer):
                             bad(f"PullArc did not hand the offer back intact: {r}", {"class": cname, "arc": aname})
-                        if direction != "push" and r["volume"] != 0:
+                        if direction not in ("push", "pushforce") and r["volume"] != 0:
                             bad(f"{aname} answered a denied {direction} with {r['volume']}", {"class": cname, "arc": aname})
                     if direction in ("pushcheck", "pullcheck") and after != before:
                         bad(f"a {direction} changed the state of {cname}", {"class": cname, "arc": aname})
